@@ -494,6 +494,30 @@ def handle (line : String) : String :=
         | .ok P => match prepare F P [] with
           | .ok (_, kp) => showBound (decoratedCall F P kp args kws)
           | .error e => "err " ++ showErr e)
+    | "deccallend2" :: st :: ww :: a :: k :: p :: [] => do
+      -- posoargs(end=st) stacked with kwoargs(*W): one translator with both selections
+      let F ← parseParams p
+      let s0 ← st.toNat?
+      let W ← parseNats ww "."
+      let args ← parseNats a "."
+      let kws ← parsePairs k "."
+      some (match endNames F s0 [] with
+        | .error e => "err " ++ showErr e
+        | .ok P => match prepare F P W with
+          | .ok (_, kp) => showBound (decoratedCall F P kp args kws)
+          | .error e => "err " ++ showErr e)
+    | "deccallstart2" :: st :: pp :: a :: k :: p :: [] => do
+      -- kwoargs(start=st) stacked with posoargs(*P)
+      let F ← parseParams p
+      let s0 ← st.toNat?
+      let P ← parseNats pp "."
+      let args ← parseNats a "."
+      let kws ← parsePairs k "."
+      some (match startNames F s0 [] with
+        | .error e => "err " ++ showErr e
+        | .ok W => match prepare F P W with
+          | .ok (_, kp) => showBound (decoratedCall F P kp args kws)
+          | .error e => "err " ++ showErr e)
     | "deccallstart" :: st :: ex :: a :: k :: p :: [] => do
       let F ← parseParams p
       let s0 ← st.toNat?
